@@ -56,7 +56,11 @@ def vdi_chain(draw, tier):
     last = draw(st.sampled_from([bs, 512, bs - 512 if bs > 512 else bs]))
     size = (nb - 1) * bs + max(512, last)
     depth = draw(st.integers(1, max_depth(tier)))
-    layers = [draw(c05.vdi_spec(tier, layer=i, fixed_geometry=(bs, nb, size))) for i in range(depth)]
+    layers = []
+    vary = draw(st.sampled_from([False, False, True]))  # ancestors with a block size of their own (same virtual size)
+    for i in range(depth):
+        lbs = 1 << draw(st.sampled_from([9, 12, 16, 20])) if vary else bs
+        layers.append(draw(c05.vdi_spec(tier, layer=i, fixed_geometry=(lbs, -(-size // lbs), size))))
     return {"family": "vdi", "layers": layers, "size": size, "unit": bs}
 
 
